@@ -70,6 +70,7 @@ func (c *trCtx) onlyEffects(list []ast.Stmt) bool {
 }
 
 func (c *trCtx) declare(name string, t trTy, define bool) error {
+	c.noteAssigned(name)
 	if define {
 		if d, ok := c.depth[name]; ok && d < c.cur {
 			return trErr("`%s :=` in a nested block shadows an outer variable", name)
@@ -98,6 +99,13 @@ func (c *trCtx) block(list []ast.Stmt, k trCont) (string, error) {
 	for n, d := range c.depth {
 		savedDepth[n] = d
 	}
+	// assignment counts are per path: what follows the block is translated inside its continuation; the
+	// code translated after block() returns belongs to another branch
+	savedCount := map[string]int{}
+	for n, k := range c.assignCount {
+		savedCount[n] = k
+	}
+	defer func() { c.assignCount = savedCount }()
 	c.cur++
 	inner := c.cur
 	s, err := c.stmts(list, func() (string, error) {
@@ -161,6 +169,7 @@ func (c *trCtx) stmts(list []ast.Stmt, k trCont) (string, error) {
 		if !ok || c.vars[id.Name] != tyInt {
 			return "", trErr("%s", exprText(c.fset, x))
 		}
+		c.noteAssigned(id.Name)
 		op := "+"
 		if x.Tok == token.DEC {
 			op = "-"
@@ -390,6 +399,9 @@ func (c *trCtx) joined(vs []string, stmt func(k trCont) (string, error), rest tr
 	val, err := stmt(func() (string, error) { return tuple, nil })
 	if err != nil {
 		return "", err
+	}
+	for _, v := range vs {
+		c.noteAssigned(v) // assigned inside the joined statement (whose own counts were per branch)
 	}
 	r, err := rest()
 	if err != nil {
@@ -809,6 +821,9 @@ func (c *trCtx) loop(sp loopSpec, rest trCont) (string, error) {
 	if err != nil {
 		return "", err
 	}
+	for _, v := range state {
+		c.noteAssigned(v) // assigned by the loop body
+	}
 	r, err := rest()
 	if err != nil {
 		return "", err
@@ -854,7 +869,8 @@ func (c *trCtx) loopTail(sp loopSpec, state []string, unpack, pre, body string, 
 // goTypeOf: Go type text → translator type and Lean zero value
 func goTypeOf(t string, c *trCtx) (trTy, string) {
 	switch t {
-	case "int", "int64", "int32", "int16", "int8", "uint", "uint64", "uint32", "rune":
+	case "int", "int64", "int32", "rune":
+		// (unsigned types are refused: Int does not wrap around at 0)
 		return tyInt, "(0 : Int)"
 	case "byte", "uint8":
 		return tyByte, "(0 : UInt8)"
